@@ -355,3 +355,10 @@ package posix
 // ---- C08: a refused upload leaves no staging file behind (a named temporary file is removed when the upload ends) ----
 //@ func (*tmpfile) cleanup
 //@   at-return {C08} [a-named-temporary-file-is-removed] when !tmp.isOTmp :: ensures called("os.Remove") && called("os.File.Name") && arg("os.Remove", 0) == result("os.File.Name", 0)
+
+// ---- C20: an error answer that still carries a result (a delete marker) carries its modification time; the handlers
+// format that time without a test ----
+//@ func (*Posix) HeadObject
+//@   ensures {C20} [an-error-answer-with-a-result-carries-its-time] err != nil && ret0 != nil ==> ret0.LastModified != nil
+//@ func (*Posix) GetObject
+//@   ensures {C20} [an-error-answer-with-a-result-carries-its-time] err != nil && ret0 != nil ==> ret0.LastModified != nil
